@@ -42,6 +42,35 @@ theorem tokens_ordered (u : Uni) (src : List Char) (r : LexResult) (h : lex u sr
     subst h
     exact (lexItems_tiling u src _ _ items sf (good_init src) hrun).1.ordered
 
+/-- **The position printed with a lexical diagnostic points at a character of the file**: for every source text,
+every diagnostic the lexer produces (unknown escape, missing hexadecimal digits, every malformed-constant code,
+unterminated character constant / string / comment, empty character constant, bad lexeme, …) has a first highlight —
+the position both formatters print — whose (line, column) is the visual position, by the position specification, of
+the `k`-th raw character of the file for some `k < |src|`: tabs before it, multi-line tokens, splices and
+di/trigraphs included.  (Proofs: the step relation `FollowsN` carries `DiagAt`, re-established for every
+sub-lexer; `Proofs/NumPrefix.lean` shows that the four numeric patterns match a tab-free prefix of the raw text.) -/
+theorem diag_positions (u : Uni) (src : List Char) (r : LexResult) (h : lex u src = .ok r) :
+    ∀ d ∈ r.diags, ∃ hl tl k, d.highlights = hl :: tl ∧ k < src.length ∧ (hl.line, hl.col) = visualPos src k := by
+  unfold lex at h
+  split at h
+  · cases h
+  · rename_i items sf hrun
+    simp only [Except.ok.injEq] at h
+    subst h
+    obtain ⟨_, ⟨n, _, _, _, _, ds, h5, h6⟩, _⟩ := lexItems_tiling u src _ _ items sf (good_init src) hrun
+    intro d hd
+    simp only at hd
+    rw [h5] at hd
+    simp only [List.nil_append] at hd
+    obtain ⟨hl, tl, k, e1, e2, e3⟩ := h6 d hd
+    exact ⟨hl, tl, k, e1, e2, e3⟩
+
+/-- Non-vacuity: the printed positions of four diagnostics in a text with a tab, a trigraph backslash and a splice. -/
+example : (lex {} "\tx = '??/q' + \"\\\n\\x\" + 0b12 + 1.5e+;".toList).toOption.map
+      (fun r => r.diags.map (fun d => (d.name, d.highlights.head?.map (fun h => (h.line, h.col)))))
+    = some [("UNKNOWN_ESCAPE", some (1, 13)), ("NO_HEX_DIGITS", some (2, 2)), ("INVALID_BIN_INT", some (2, 10)),
+            ("BAD_EXPONENT", some (2, 17))] := by decide +kernel
+
 /-- The position specification itself: columns after a tab are the next multiple of 4 plus 1. -/
 example : visualPos "\tab\t\tc\n\tx".toList 7 = (2, 1) ∧ visualPos "\tab\t\tc\n\tx".toList 8 = (2, 5)
     ∧ visualPos "a\tb".toList 2 = (1, 5) ∧ visualPos "abcd\te".toList 5 = (1, 9) := by decide +kernel
